@@ -8,11 +8,15 @@ EXPLANATION = ("C01: encoder and decoder are shown to agree on what is carried a
                "(R4) both sides use the v3 field order with deltas against the previously emitted value; (R5) sections and "
                "the Hermes payload are carried both ways; (R6) only exact duplicates are dropped by the encoder; (R7) the root-joined name cache stays coherent with root and raw names; (R8) the VLQ reader accepts the writer's whole range (no extra rejections)."
                " (R10) writer and reader of the data URL use the same standard padded alphabet; (R11) SourceMap::new stores every argument whole."
-               " (R12) decode_regular fails only for the reviewed reasons (each error exit is a propagated callee error or one of the listed variants); (R13) embedded contents are held as views that show exactly the text they were built from; (RW) the wire structs RawSourceMap/RawSection carry derived serde impls only, so key names and optionality are exactly what the attributes say.")
+               " (R12) decode_regular fails only for the reviewed reasons (each error exit is a propagated callee error or one of the listed variants); (R13) embedded contents are held as views that show exactly the text they were built from; (RW) the wire structs RawSourceMap/RawSection carry derived serde impls only, so key names and optionality are exactly what the attributes say."
+               " (R14) tokens are sorted by generated position after every write (SourceMap::new, adjust_mappings on every exit), which the line-advancing writer relies on.")
 NOT_DECIDED = ("equality of the decoded values with the original, byte-for-byte idempotence and JSON string escaping (delegated to "
                "serde_json) are value-level statements.")
 
 RULES = {
+    # the writer advances the generated line and takes deltas against the previous token: it relies on the tokens being
+    # ordered by generated position whatever produced the map (constructor, adjust_mappings)
+    "C01.R14": lambda ctx: __import__("rules.typesrules", fromlist=["x"]).sort_after_write(ctx, "C01.R14"),
     "C01.RW": lambda ctx: __import__("rules.foundations", fromlist=["x"]).wire_types_derived_only(ctx, "C01.RW"),
     # embedded contents are held as views: a view shows exactly the text it was made from
     "C01.R13": lambda ctx: __import__("rules.svrules", fromlist=["x"]).fresh_views(ctx, "C01.R13"),
